@@ -450,6 +450,24 @@ def run_c18(mbi, case):
                 viol.append(Violation('c18-feasible', 'c18-feasible', 'convex oracle: primal feasibility of the returned marginals is %.4g >= 1.0 (%s)' % (f, tag)).as_dict())
                 break
             probes['feasibility-checked'] = probes.get('feasibility-checked', 0) + 1
+            # overlapping measured tables: by the triangle inequality along the region graph their disagreement on shared attributes
+            # is at most the SUM of the edge disagreements the estimator's own feasibility measure averages
+            E = sum(len(model.children[r]) for r in model.cliques)
+            projs = sorted({m[3] for m in meas})
+            for i, r in enumerate(projs):
+                for s2 in projs[i + 1:]:
+                    d = tuple(sorted(set(r) & set(s2)))
+                    if not d:
+                        continue
+                    gap = float(np.abs(np.asarray(model.project(r).project(d).values) - np.asarray(model.project(s2).project(d).values)).sum())
+                    if gap > E * f * (1 + 1e-6) + 1e-9 * total:
+                        viol.append(Violation('c18-overlap-agree', 'c18-overlap-agree', 'convex oracle: tables for %s and %s disagree on %s by %.4g counts, more than the total edge disagreement %.4g (= %d edges x feasibility %.4g) '
+                                              'that the estimator\'s feasibility measure accounts for (%s)' % (r, s2, d, gap, E * f, E, f, tag)).as_dict())
+                        break
+                if viol:
+                    break
+            if viol:
+                break
         if case['disjoint'] and call['iters'] >= 300 and not viol:
             v = check_exact(mbi, case, eng, meas, call, total, L, Lu, probes, tag)
             if v:
@@ -473,11 +491,14 @@ def optimum_disjoint(meas, total):
         w = sum(wi for _, wi in lst)
         ybar = sum(y * wi for y, wi in lst) / w
         tables[proj] = simplex_projection(ybar, total)
-    return loss_from(tables, meas)
+    interior = all(t.min() > 1e-3 * total / t.size for t in tables.values())
+    return loss_from(tables, meas), interior
 
 
 def check_exact(mbi, case, eng, meas, call, total, L, Lu, probes, tag):
-    Lstar = optimum_disjoint(meas, total)
+    Lstar, interior = optimum_disjoint(meas, total)
+    where = '' if interior else ':boundary-optimum'
+    probes['disjoint-optimum-%s' % ('interior' if interior else 'on-boundary')] = probes.get('disjoint-optimum-%s' % ('interior' if interior else 'on-boundary'), 0) + 1
     allowed = lambda: 1e-3 * max(Lstar, Lu - Lstar) + 1e-9 * Lu + 1e-12
     probes['disjoint-exactness-checked'] = probes.get('disjoint-exactness-checked', 0) + 1
     if L < Lstar * (1 - 1e-6) - 1e-9:
@@ -498,7 +519,7 @@ def check_exact(mbi, case, eng, meas, call, total, L, Lu, probes, tag):
     if gaps[-1][1] <= 0.5 * gaps[-2][1] and gaps[-2][1] <= 0.5 * gaps[-3][1]:
         probes['exactness-slow-but-shrinking'] = probes.get('exactness-slow-but-shrinking', 0) + 1
         return None
-    return Violation('c18-exact-on-disjoint', 'c18-exact-on-disjoint:' + case['oracle'],
+    return Violation('c18-exact-on-disjoint', 'c18-exact-on-disjoint:' + case['oracle'] + where,
                      'disjoint cliques: loss stays above the optimum %.6g: gaps by iteration multiplier %s (uniform %.6g, %s)' % (Lstar, [(m, round(g, 6)) for m, g in gaps], Lu, tag))
 
 
